@@ -13,8 +13,8 @@ ASSUMPTIONS = ['force-32bits on x86-64 stands in for a 32-bit target (no arm32 t
 FLOORS = {'evaluations': 20000, 'distinct': 8000}
 THOROUGH_ROUNDS = 3   # thorough tier: generator passes with derived seeds (runner.gen_rounds)
 # bulk differential (cxv/bulk.py): (kind, calls per backend, block)
-BULK = {'quick': [('x25519', 1 << 17, 1024), ('x25519_base', 1 << 15, 1024), ('ed_sign', 1 << 15, 512), ('sc_reduce', 1 << 21, 1 << 14), ('fe_mix', 1 << 21, 1 << 14), ('fe_inv', 1 << 16, 1024), ('ge_dsm', 1 << 14, 512)],
-        'thorough': [('x25519', 1 << 25, 4096), ('x25519_base', 1 << 23, 4096), ('ed_sign', 1 << 22, 4096), ('sc_reduce', 1 << 28, 1 << 17), ('fe_mix', 1 << 28, 1 << 17), ('fe_inv', 1 << 24, 1 << 13), ('ge_dsm', 1 << 22, 4096)]}
+BULK = {'quick': [('x25519', 1 << 17, 1024), ('x25519_base', 1 << 15, 1024), ('ed_sign', 1 << 15, 512), ('sc_reduce', 1 << 21, 1 << 14), ('sc_muladd', 1 << 22, 1 << 14), ('fe_mix', 1 << 21, 1 << 14), ('fe_inv', 1 << 16, 1024), ('ge_dsm', 1 << 14, 512)],
+        'thorough': [('x25519', 1 << 25, 4096), ('x25519_base', 1 << 23, 4096), ('ed_sign', 1 << 22, 4096), ('sc_reduce', 1 << 28, 1 << 17), ('sc_muladd', 1 << 28, 1 << 17), ('fe_mix', 1 << 28, 1 << 17), ('fe_inv', 1 << 24, 1 << 13), ('ge_dsm', 1 << 22, 4096)]}
 
 
 class _Mod:
